@@ -188,6 +188,9 @@ class Run:
         opts.update(self.case.get('opts') or {})
         if restart:
             opts.pop('startcp', None)       # not valid for a restart (restored from the DB)
+            # additive (C06): a start-up hold point (`--hold-after`, only set by generator option p_start_hold)
+            # is given once; a restart is a plain `cylc play` and takes the hold point from the DB
+            opts.pop('holdcp', None)
         schd = Scheduler(self.id, RunOptions(**opts))
         self.schd = schd
         # additive (C25, off unless the policy sets obs_ds): capture the published data-store deltas, keep a
@@ -207,7 +210,28 @@ class Run:
         tjm = schd.task_job_mgr
         run = self
 
+        real_prep = TaskJobManager._prep_submit_task_job
+
         def _prep(itask, check_syntax=True):
+            key = [int(itask.point), itask.tdef.name, itask.submit_num]
+            if run._prep_fails(key):
+                # additive (C02, off unless the policy sets p_prep_fail or a loop op lists "prepfail"): job-file
+                # preparation raises for this submission.  The REAL _prep_submit_task_job runs, with
+                # JobFileWriter.write raising, so the real '(prepare job file)' exception handler and
+                # _prep_submit_task_job_error (submit-failed via the preparation path) are exercised
+                jfw = tjm.job_file_writer
+                orig_write = jfw.write
+
+                def boom(*a, **k):
+                    raise IOError('verif: job file preparation failure')
+                jfw.write = boom
+                itask.run_mode = RunMode.LIVE
+                try:
+                    ret = real_prep(tjm, itask, check_syntax)
+                finally:
+                    jfw.write = orig_write
+                run.__dict__.setdefault('prepfail', []).append(key)
+                return ret
             TaskJobManager._set_retry_timers(itask)
             itask.waiting_on_job_prep = False
             itask.run_mode = RunMode.LIVE
@@ -266,6 +290,18 @@ class Run:
                 run.nstmt_cur = getattr(run, 'nstmt_cur', 0) + 1
                 return orig_stmt(*a, **k)
             dao._execute_stmt = _execute_stmt
+
+    def _prep_fails(self, key):
+        """additive (C02): does job-file preparation fail for submission [point, name, submit_num]?
+        Replay: exactly the submissions listed under "prepfail" of the current loop op; adaptive: a seeded function of
+        the case seed and the submission (policy p_prep_fail), so no draw from the schedule's random sequence."""
+        cur = getattr(self, 'cur_prepfail', None)
+        if cur is not None:
+            return [f'{key[0]}/{key[1]}', key[2]] in cur
+        p = (self.case.get('policy') or {}).get('p_prep_fail')
+        if not p or self.case.get('ops') is not None:
+            return False
+        return random.Random(f'{self.case.get("seed", 0)}/pf/{key[0]}/{key[1]}/{key[2]}').random() < p
 
     # -- additive instrumentation for the C07 / C11S / C03 judges (extra observation keys
     #    'adds', 'removed', 'stall_at'; the model does not predict them; behaviour unchanged)
@@ -419,6 +455,8 @@ class Run:
             'removed': sorted(getattr(self, 'removed', []), key=lambda r: (r[0], r[1])),
             'stall_at': getattr(self, 'stall_at', None),
             'prep': sorted(getattr(self, 'prepped', [])),
+            # additive (C02): submissions whose job-file preparation failed in this op, in processing order
+            'prepfail': list(getattr(self, 'prepfail', [])),
             # additive (C43 judge): the stop task and its finished flag; after a 'restart' op the
             # workflow_params rows (stopcp, stop_task) the stopped scheduler left in the database
             'stop_task': tp.stop_task_id,
@@ -427,6 +465,9 @@ class Run:
             # additive (C19 judge): the record of completed absolute outputs and the flow counter
             'abs_done': sorted([int(str(c)), str(n), str(o)] for c, n, o in tp.abs_outputs_done),
             'flow_counter': int(schd.flow_mgr.counter),
+            # additive (C19 broadcasts): the broadcast store, one entry per item [point, namespace, key, value]
+            # (key as in the broadcast_states table: [section]item), sorted
+            'bcast': _flat_broadcasts(schd.broadcast_mgr.broadcasts),
         }
         # additive (C28, group trigger): launches with flows / manual flag; per-proxy trigger state
         # (manual-submit, flow-wait, waiting-on-job-prep, how each prerequisite atom was satisfied);
@@ -437,6 +478,9 @@ class Run:
         # flow manager knows, and the committed rows of task_states joined with task_outputs (queued DB
         # operations are not visible until the scheduler flushes its queue)
         obs['fw'] = sorted([int(t.point), t.tdef.name] for t in schd.pool.get_tasks() if t.flow_wait)
+        # additive (C29): the xtriggers of the pooled proxies (incl. the dynamic retry xtriggers) and whether satisfied
+        obs['xtr'] = sorted([int(t.point), t.tdef.name, str(lb), bool(v)]
+                            for t in schd.pool.get_tasks() for lb, v in t.state.xtriggers.items())
         obs['flows_known'] = sorted(int(f) for f in schd.flow_mgr.flows)
         obs['ts'] = self._observe_ts() if self.stop_reason is None else None
         # additive (C27): pool snapshots immediately before / after the reload command of this op (and the queued
@@ -473,6 +517,8 @@ class Run:
         obs['qs'] = [[qn, int(q.limit), [[int(t.point), t.tdef.name] for t in reversed(q.deque)]]
                      for qn, q in tp.task_queue_mgr.queues.items()]
         obs['wjp'] = sorted([int(t.point), t.tdef.name] for t in schd.pool.get_tasks() if t.waiting_on_job_prep)
+        # additive (C05S, manual triggers against queue limits): the proxies with the manual-submit flag up
+        obs['man'] = sorted([int(t.point), t.tdef.name] for t in schd.pool.get_tasks() if t.is_manual_submit)
         # additive (C04F / C07F, future triggers): the cached TaskPool.max_future_offset and the lazily raised
         # max_future_prereq_offset of the task definitions that have one
         obs['mfo'] = None if tp.max_future_offset is None else int(tp.max_future_offset)
@@ -492,6 +538,7 @@ class Run:
         obs['nstmts'] = self.__dict__.pop('nstmts', [])
         obs['crashed'] = bool(self.__dict__.pop('just_crashed', False))
         self.prepped = []
+        self.prepfail = []
         self.adds, self.removed, self.stall_at = [], [], None
         self.launched = []
         self.polls = []
@@ -585,6 +632,10 @@ class Run:
                 # by the queued set after this loop's sweep (reported under key 'reload_swept' of this op)
                 self.swept_snaps = {'swept': None}
                 self._hook_sweep(self.swept_snaps)
+            # additive (C02): the preparation failures of this loop: given by the op on replay, else decided by the
+            # policy and recorded into the op afterwards
+            self.cur_prepfail = (op.get('prepfail') or []) if self.case.get('ops') is not None else None
+            n_pf = len(getattr(self, 'prepfail', []))
             try:
                 await schd._main_loop()
                 self.unprocessed = []
@@ -592,6 +643,9 @@ class Run:
                 self.stop_reason = str(exc.args[0]) if exc.args else 'stop'
             finally:
                 schd.pool.__dict__.pop('clock_expire_tasks', None)
+            new_pf = getattr(self, 'prepfail', [])[n_pf:]
+            if new_pf and self.case.get('ops') is None:
+                op['prepfail'] = [[f'{k[0]}/{k[1]}', k[2]] for k in new_pf]
         elif kind == 'subres':
             itask = schd.pool._get_task_by_id(op['task'])
             if itask is not None:
@@ -739,6 +793,21 @@ class Run:
         elif kind == 'reload':
             # additive (C27): `cylc reload` after rewriting flow.cylc with op['flow'] (see Run.reload)
             await self.reload(op)
+        elif kind == 'bcast':
+            # additive (C19 broadcasts): a broadcast request as the server receives it (resolvers.broadcast calls
+            # the BroadcastMgr directly, not through the command queue); settings / cancel = lists of leaves
+            # [[section.., item], value]
+            from cylc.flow.network.schema import BroadcastMode
+            mode = {'put': BroadcastMode.Set, 'clear': BroadcastMode.Clear, 'expire': BroadcastMode.Expire}[op['mode']]
+            settings = None
+            if op['mode'] == 'put':
+                settings = [_nest(leaves) for leaves in op.get('settings') or []]
+            elif op.get('cancel'):
+                settings = [_nest([[path, None]]) for path in op['cancel']]
+            schd.server.resolvers.broadcast(
+                mode, cycle_points=list(op.get('points') or []) or None,
+                namespaces=list(op.get('namespaces') or []) or None, settings=settings,
+                cutoff=op.get('cutoff'))
         elif kind == 'restart':
             # clean shutdown of the stopped scheduler, then a new Scheduler on the same run directory
             await self.stop_scheduler()
@@ -982,6 +1051,10 @@ class Run:
             ctx_items.update(run_status=1, run_signal='ERR', time_run=when, time_run_exit=when)
         elif state == 'submission failed':
             ctx_items['job_runner_exit_polled'] = 1
+        elif state.startswith('failed/'):
+            # killed by a signal and gone from the job runner -> message "failed/<SIGNAL>"
+            ctx_items.update(run_status=1, run_signal=state.split('/', 1)[1], time_run=when, time_run_exit=when,
+                             job_runner_exit_polled=1)
         else:
             line = f"{tjm.job_runner_mgr.OUT_PREFIX_MESSAGE}{when}|{path}|{when}|INFO|{state}\n"
         if line is None:
@@ -1020,9 +1093,28 @@ class Run:
             if done < len(stops) and schd.stop_mode is None and getattr(self, 'loops_done', 0) >= stops[done][0]:
                 self.stops_done = done + 1
                 return {'op': 'cmd', 'name': 'stop', 'args': {'mode': stops[done][1]}}
+        # additive (C19 broadcasts, off unless the policy sets p_bcast): bursts of broadcast set / clear / expire
+        # requests with no main loop in between, built to share cycle point, namespace or key
+        if self.__dict__.get('bcast_burst'):
+            return self.bcast_burst.pop(0)
+        if pol.get('p_bcast') and rng.random() < pol['p_bcast']:
+            self.bcast_burst = self.random_bcasts(rng, pol)
+            if self.bcast_burst:
+                return self.bcast_burst.pop(0)
+        if pol.get('p_reload_after_cmd') and self.__dict__.get('want_reload'):
+            # additive (C27 / C43R, off unless the policy sets p_reload_after_cmd): a reload right behind a command,
+            # with no main loop in between (the commands of one process_command_queue batch: the DB writes the
+            # command queued are still pending); submit results of preparing tasks are flushed first
+            op = self.random_cmd(rng, dict(pol, cmds=['reload']))
+            if op is None or op['op'] == 'reload':
+                self.want_reload = False
+            if op is not None:
+                return op
         if pol.get('cmds') and rng.random() < pol.get('p_cmd', 0.0):
             op = self.random_cmd(rng, pol)
             if op is not None:
+                if pol.get('p_reload_after_cmd') and op['op'] == 'cmd':
+                    self.want_reload = rng.random() < pol['p_reload_after_cmd']
                 return op
         # register new launches as jobs
         cands = []
@@ -1044,9 +1136,12 @@ class Run:
             tid = f'{key[0]}/{key[1]}'
             if kind == 'subres':
                 return {'op': 'subres', 'task': tid, 'ok': payload, 'sn': key[2]}
+            if kind == 'pollmsg':
+                # (C09/C10) a message line of the job status file, delivered by a jobs-poll command
+                return {'op': 'pollres', 'task': tid, 'state': payload, 'sn': key[2]}
             self.__dict__.setdefault('unprocessed', []).append((key, job['next'] - 1))    # (C19 'redeliver')
             return {'op': 'msg', 'task': tid, 'msg': payload, 'sn': key[2],
-                    'sev': 'CRITICAL' if payload == 'failed' else 'INFO'}
+                    'sev': 'CRITICAL' if payload.split('/')[0] in ('failed', 'aborted') else 'INFO'}
         if cands and rng.random() < pol.get('p_noise', 0.0):
             # duplicate / stale / out-of-order delivery
             key = rng.choice(sorted(cands))
@@ -1102,6 +1197,10 @@ class Run:
         for kind, payload in emitted:
             if kind == 'msg' and payload in ('started', 'succeeded', 'failed'):
                 truth = payload
+            elif kind == 'msg' and payload.split('/')[0] in ('failed', 'aborted'):
+                # a poll reports an error-trap failure as plain failed, a signal-killed job with its signal
+                sig = payload.split('/', 1)[1]
+                truth = payload if payload.startswith('failed/') and sig not in ('ERR', 'EXIT') else 'failed'
         return truth
 
     def request_poll(self, point, name):
@@ -1130,6 +1229,54 @@ class Run:
             truth = self.job_truth((point, name, sn)) or truth
         return {'op': 'pollres', 'task': f'{point}/{name}', 'state': truth, 'sn': sn}
 
+    def random_bcasts(self, rng, pol):
+        """additive (C19 broadcasts): 2-4 broadcast requests over a small universe of cycle points (pooled cycles,
+        the next ones, '*'), namespaces (tasks, root) and single-item settings; clears / expiries are aimed at
+        what is set (same point, same namespace or same key as other entries)."""
+        g = self.graph
+        bm = self.schd.broadcast_mgr
+        pooled = sorted({int(t.point) for t in self.schd.pool.get_tasks()})
+        base = pooled or [g['icp']]
+        pts = sorted({str(p) for p in base + [base[-1] + 1, base[-1] + 2] if p <= g['fcp'] + 1}) + ['*']
+        nss = sorted(g['tasks'])[:3] + ['root']
+        keys = [['environment', 'FOO'], ['environment', 'BAR'], ['script'], ['pre-script']]
+        out = []
+        virt = [e[:3] for e in _flat_broadcasts(bm.broadcasts)]      # entries as they will be after the burst so far
+        for _ in range(rng.randint(2, 4)):
+            r = rng.random()
+            if r < 0.55 or not virt:
+                ps = rng.sample(pts, rng.choice([1, 1, 2]))
+                ns = rng.sample(nss, rng.choice([1, 1, 2]))
+                leaves = [[rng.choice(keys), rng.choice(['a', 'b', 'c'])] for _ in range(rng.choice([1, 1, 2]))]
+                out.append({'op': 'bcast', 'mode': 'put', 'points': ps, 'namespaces': ns,
+                            'settings': [[leaf] for leaf in leaves]})
+                for pt in ps:
+                    for n in ns:
+                        for path, _v in leaves:
+                            e = [pt, n, _render_key(path)]
+                            if e not in virt:
+                                virt.append(e)
+            elif r < 0.9:
+                pt, n, k = rng.choice(virt)
+                how = rng.choice(['point', 'ns', 'key', 'point+ns', 'ns+key', 'all'])
+                op = {'op': 'bcast', 'mode': 'clear', 'points': [], 'namespaces': [], 'cancel': []}
+                if 'point' in how or how == 'all':
+                    op['points'] = [pt]
+                if 'ns' in how or how == 'all':
+                    op['namespaces'] = [n]
+                if 'key' in how or how == 'all':
+                    op['cancel'] = [_parse_key(k)]
+                out.append(op)
+                virt = [e for e in virt if not ((not op['points'] or e[0] in op['points']) and
+                                                (not op['namespaces'] or e[1] in op['namespaces']) and
+                                                (not op['cancel'] or _parse_key(e[2]) in op['cancel']))]
+            else:
+                nums = sorted(int(e[0]) for e in virt if e[0] != '*')
+                cut = rng.choice(nums) + rng.choice([0, 1]) if nums else g['icp']
+                out.append({'op': 'bcast', 'mode': 'expire', 'cutoff': cut})
+                virt = [e for e in virt if e[0] == '*' or int(e[0]) >= cut]
+        return out
+
     def random_cmd(self, rng, pol):
         g = self.graph
         insts = [(int(p), n) for n, t in g['tasks'].items() for p in t['inst']]
@@ -1151,6 +1298,56 @@ class Run:
             pooled = [(int(t.point), t.tdef.name) for t in self.schd.pool.get_tasks() if t.tdef.name in g['tasks']]
             src = pooled if pooled and rng.random() < 0.6 else insts
             return sorted({f'{p}/{n}' for p, n in rng.sample(src, min(len(src), rng.randint(1, 2)))})
+        if kind == 'trigger_q':
+            # additive (C05S): `cylc trigger` (default flow) of 1-3 POOLED tasks, pairwise unconnected by trigger edges
+            # (each is its own group and a group-start task), aimed at the queue limits: mostly several waiting members
+            # of ONE limited queue at once (preferably not yet queued: they must be queued when the queue is full),
+            # else any waiting tasks (e.g. a member of a free queue while another queue is full), now and then a task
+            # that already has a job
+            tp = self.schd.pool
+            queues = tp.task_queue_mgr.queues
+
+            def qof(name):
+                return next((qn for qn, q in queues.items() if name in q.members), None)
+            pooled = sorted(tp.get_tasks(), key=lambda t: (int(t.point), t.tdef.name))
+            cand = [t for t in pooled if t.state.status == 'waiting']
+            if rng.random() < 0.9:
+                # a task that was triggered already and still waits for the main loop to prepare its job is only
+                # rarely triggered again (finding retrigger-queued-and-started: the rest of such a run is tainted)
+                cand = [t for t in cand if not t.waiting_on_job_prep]
+            if rng.random() < 0.1:
+                cand = pooled
+            if not cand:
+                return None
+            limited = sorted(qn for qn, q in queues.items()
+                             if q.limit and sum(1 for t in cand if qof(t.tdef.name) == qn) >= 2)
+            if limited and rng.random() < 0.6:
+                qn = rng.choice(limited)
+                src = [t for t in cand if qof(t.tdef.name) == qn]
+                notq = [t for t in src if not t.state.is_queued]
+                if len(notq) >= 2 and rng.random() < 0.7:
+                    src = notq
+                want = rng.choice([2, 2, 3])
+            else:
+                src = cand
+                want = rng.choice([1, 1, 2])
+            picks, parents = [], {}
+            for t in rng.sample(src, len(src)):
+                key = (int(t.point), t.tdef.name)
+                d = g['tasks'].get(key[1], {}).get('inst', {}).get(str(key[0]))
+                if d is None:
+                    continue
+                par = {(a[0], a[1]) for a in d.get('trig_parents', [])}
+                if any(pk in par or key in parents[pk] for pk in picks):
+                    continue
+                picks.append(key)
+                parents[key] = par
+                if len(picks) >= want:
+                    break
+            if not picks:
+                return None
+            return {'op': 'cmd', 'name': 'force_trigger_tasks',
+                    'args': {'tasks': sorted(f'{p}/{n}' for p, n in picks), 'flow': [], 'flow_wait': False}}
         if kind == 'trigger':
             # additive (C28): `cylc trigger` of a group of task instances (pooled and not, any state),
             # grown along graph edges so that in-group prerequisites occur; --flow=new / none / N / default
@@ -1218,6 +1415,12 @@ class Run:
             # p_set_pooled = share of commands aimed at a pooled instance, p_wait = share of --wait)
             src = pooled if pooled and rng.random() < pol.get('p_set_pooled', 0.5) else insts
             p, n = rng.choice(sorted(src))
+            if pol.get('xtrig'):
+                # additive (C29, option 'xtrig'): prefer a task that waits on an unsatisfied (retry) xtrigger
+                xwait = sorted((int(t.point), t.tdef.name) for t in self.schd.pool.get_tasks()
+                               if any(not v for v in t.state.xtriggers.values()))
+                if xwait and rng.random() < 0.4:
+                    p, n = rng.choice(xwait)
             active = set()
             for t in self.schd.pool.get_tasks():
                 active |= set(t.flow_nums)
@@ -1263,6 +1466,26 @@ class Run:
                     # something the task does not depend on
                     q, m = rng.choice(insts)
                     pres.append(f'{q}/{m}:' + rng.choice(['succeeded', 'started', 'failed', 'nope']))
+                if pol.get('xtrig'):
+                    # additive (C29, option 'xtrig'): xtrigger prerequisites - the xtriggers the target carries (the
+                    # dynamic retry xtriggers), `xtrigger/all`, a retry label the target does not carry, an unknown one;
+                    # alone or together with task prerequisites
+                    tgt = self.schd.pool._get_task_by_id(f'{p}/{n}')
+                    carried = sorted(tgt.state.xtriggers) if tgt is not None else []
+                    rx = rng.random()
+                    xs = []
+                    if carried and rx < 0.7:
+                        xs = [rng.choice(carried)]
+                    elif rx < 0.12:
+                        xs = ['all']
+                    elif rx < 0.18:
+                        xs = [rng.choice([f'_cylc_retry_{p}_{n}', f'_cylc_submit_retry_{p}_{n}', 'nope'])]
+                    if xs:
+                        xpre = [f'xtrigger/{x}' + (':succeeded' if rng.random() < 0.5 else '') for x in xs]
+                        if pres == ['all'] or rng.random() < 0.6:
+                            pres = xpre
+                        else:
+                            pres = pres + xpre
                 args['prerequisites'] = pres
             return {'op': 'cmd', 'name': 'set_prereqs_and_outputs', 'args': args}
         if kind == 'reload':
@@ -1332,9 +1555,31 @@ class Run:
         if fails[0] < oc.get('exec_retries', 0) and rng.random() < oc.get('p_retry_fail', 0.0):
             fails[0] += 1
             plan.append(('msg', 'failed'))
-            return plan
+            return self._vary_plan(rng, pol, plan)
         plan.append(('msg', 'failed' if rng.random() < oc.get('p_fail', 0.0) else 'succeeded'))
-        return plan
+        return self._vary_plan(rng, pol, plan)
+
+    FAIL_FORMS = ('failed', 'failed/ERR', 'failed/EXIT', 'failed/SIGTERM', 'failed/XCPU', 'aborted/by the job script')
+
+    def _vary_plan(self, rng, pol, plan):
+        """Additive (C09/C10; off unless the policy sets fail_signals / p_lose, no random draws when off):
+        a failing job reports the failure the way job scripts do, with the run signal appended
+        (failed/ERR, failed/SIGTERM, aborted/<reason>); a message other than the last may be lost; a running job
+        may be vacated (message vacated/<SIGNAL> found by a poll) and started again."""
+        if not (pol.get('fail_signals') or pol.get('p_lose') or pol.get('p_vacate')):
+            return plan
+        if pol.get('p_vacate') and ('msg', 'started') in plan and rng.random() < pol['p_vacate']:
+            # the batch system pre-empts (vacates) the running job and restarts it later
+            k = plan.index(('msg', 'started'))
+            plan = plan[:k + 1] + [('pollmsg', 'vacated/SIGUSR1'), ('msg', 'started')] + plan[k + 1:]
+        out = []
+        for i, (kind, payload) in enumerate(plan):
+            if kind == 'msg' and payload == 'failed' and pol.get('fail_signals'):
+                payload = rng.choice(self.FAIL_FORMS)
+            if kind == 'msg' and i < len(plan) - 1 and pol.get('p_lose') and rng.random() < pol['p_lose']:
+                continue
+            out.append((kind, payload))
+        return out
 
     async def drive(self):
         case = self.case
@@ -1510,6 +1755,9 @@ def extract_graph(schd, case, flow_text=None):
             'outputs': outs if inst else [],
             'exec_retries': len(tdef.rtconfig['execution retry delays'] or []),
             'sub_retries': len(tdef.rtconfig['submission retry delays'] or []),
+            # additive (C29): whether the retry delays are non-zero (the retry xtrigger is not satisfied within a run)
+            'exec_retry_long': any(float(d) > 0 for d in (tdef.rtconfig['execution retry delays'] or [])),
+            'sub_retry_long': any(float(d) > 0 for d in (tdef.rtconfig['submission retry delays'] or [])),
             'has_abs': bool(tdef.has_abs_triggers),
             'sequential': bool(tdef.sequential),
             'required': req_msgs if inst else [],
@@ -1528,12 +1776,52 @@ def extract_graph(schd, case, flow_text=None):
         'tasks': tasks, 'order': list(schd.pool.task_name_list), 'seqs': seqs,
         'stop_point': None if schd.pool.stop_point is None else int(schd.pool.stop_point),
         'cfg_stop': None if cfg.stop_point is None else int(cfg.stop_point),
+        # additive (C19 broadcasts): the namespaces a broadcast may address, and the longest cycling interval
+        # (automatic broadcast expiry: cutoff = oldest pooled cycle - this)
+        'namespaces': sorted(schd.broadcast_mgr.linearized_ancestors),
+        'longest_interval': int(cfg.interval_of_longest_sequence),
         # additive (C27): `stop after cycle point` as written in the flow.cylc text (cfg.stop_point is overridden
         # by the --stopcp option / the database value); null if absent or beyond the final point
         'cfg_stop_file': _stop_in_file(flow_text if flow_text is not None else case.get('flow'), fcp),
         # additive (C05S): the internal queues as built by IndepQueueManager (dict order): [name, limit, members]
         'queues': [[qn, int(q.limit), sorted(q.members)] for qn, q in schd.pool.task_queue_mgr.queues.items()],
     }
+
+
+def _render_key(path):
+    """(C19 broadcasts) the broadcast_states key of an item: [section]...item"""
+    return ''.join(f'[{s}]' for s in path[:-1]) + path[-1]
+
+
+def _parse_key(key):
+    return re.findall(r'\[([^\]]+)\]', key) + [key.rsplit(']', 1)[-1]]
+
+
+def _nest(leaves):
+    """(C19 broadcasts) [[path, value], ...] -> nested setting dictionary"""
+    d = {}
+    for path, value in leaves:
+        cur = d
+        for sect in path[:-1]:
+            cur = cur.setdefault(sect, {})
+        cur[path[-1]] = value
+    return d
+
+
+def _flat_broadcasts(broadcasts):
+    out = []
+
+    def walk(point, ns, path, stuff):
+        for k, v in stuff.items():
+            if isinstance(v, dict):
+                walk(point, ns, path + [k], v)
+            else:
+                out.append([str(point), str(ns), _render_key(path + [k]),
+                            ', '.join(str(x) for x in v) if isinstance(v, (list, tuple)) else str(v)])
+    for point, nss in dict(broadcasts).items():
+        for ns, settings in dict(nss).items():
+            walk(point, ns, [], settings)
+    return sorted(out)
 
 
 def _stop_in_file(text, fcp):
